@@ -13,7 +13,11 @@ SPEC = {
              "BaseAdapter.cleanupConnection (e:, shim), the Disconnect command via HandlePacket (d:), the real heartbeat-timeout "
              "sweep cleanupStaleConnections after the connection was made to look silent (s:, shim), duplicate-login eviction "
              "KickOldControlConnection (k:), session manager shutdown Close/onClose (x:<node>), and the same-node re-handshake "
-             "(fake transport and auth handler); after EVERY event EVERY node is asked FindClientNode for every watched client "
+             "(fake transport; the auth handler double accepts token ok and, like ServerAuthHandler.updateClientRuntimeState, calls "
+             "ConnectClient for control handshakes of a known client). Every node also carries a REAL client.Service over a real "
+             "ClientStateRepository on its handle of the shared store, given to the session manager as CloudControlAPI (heartbeat -> "
+             "EnsureClientOnline, RemoveControlConnection / sweep -> DisconnectClientIfMatch); the third component of every "
+             "observation is what each node reads from the runtime state (GetState: node + connection); after EVERY event EVERY node is asked FindClientNode for every watched client "
              "and SendCommandToClient's routing decision is recorded (CrossNodePool over a recording storage: no network). "
              "Backends: memory, redis over miniredis (clock = FastForward), hybrid(local memory per node + shared redis), hybrid "
              "local-only, doubles answering map[string]interface{} / []byte. Generators: exhaustive words of length <= 3 (quick) / "
@@ -45,7 +49,9 @@ SPEC = {
         "skeletons of handleHandshake, handleHeartbeat, CreateConnection, RemoveControlConnection, removeConnectionLocked, "
         "UpdateAuth, cleanupStaleConnections, CleanupStale, handleDisconnectCommand, KickOld(Control)Connection, onClose, "
         "ClientRegistry.Close, BaseAdapter.handleConnection/cleanupConnection, WebSocketModule.handleConnection, SendCommandToClient, sendCommandCrossNode, SendHTTPProxyRequest, StreamManager.CreateStream, hybrid "
-        "Get/setShared/getCacheForKey/getCategory; hybrid DefaultConfig prefix tables (Gen/ConnState.lean)",
+        "Get/setShared/getCacheForKey/getCategory; hybrid DefaultConfig prefix tables; client.Service ConnectClient / EnsureClientOnline / "
+        "DisconnectClientIfMatch, ClientStateRepository GetState/SetState, ServerAuthHandler.updateClientRuntimeState, TTLClientState, "
+        "KeyPrefixRuntimeClientState (Gen/ConnState.lean)",
         "differential harness /verif/harness/c08 (fake transport, auth handler that accepts token \"ok\", recording storage under "
         "the CrossNodePool, value-shape doubles); compiled Lean driver as model and as holds-oracle",
         "the shared store behaves as the sequential map with expiry of Spec/TTLStore (C13 for memory; observed, not proved, for "
@@ -73,6 +79,12 @@ SPEC = {
         "lookups are read-only in the model (lookup_is_read_only; source tie skel_lookup_reads + flow_FindClientNode); the one write "
         "the code can make inside a lookup - GetConnectionState deleting the record it found past its ExpiresAt - concerns the key of "
         "that connection id only and is subsumed by the store's own deadline (not modelled)",
+        "cloud runtime state (tunnox:runtime:client:state:<client>, 90 s): a separate component of the model (disjoint key family); "
+        "the real auth handler also calls ConnectClient for tunnel-type Handshake packets (it does not look at ConnectionType) - "
+        "the double does not, production tunnel connections authenticate with TunnelOpen; clients whose connection the server "
+        "ended without the registry (shutdown, KickOldControlConnection) are exempt from clause B' until their next handshake "
+        "(known finding runtime-state-survives-server-side-end); GetClientNodeID/IsClientOnNode additionally require LastSeen "
+        "< 90 s on the wall clock (not observed: FastForward does not age it)",
         "limits not reached (MaxConnections 10000, MaxControlConnections 5000: the registry evicts the oldest control "
         "connection at the limit), no storage faults, heartbeat-timeout cleanup = a close event",
         "SendCommandToClient prefers the node's own registry: a node that still holds an (unnoticed dead) connection of the "
